@@ -411,7 +411,8 @@ Proof.
       | |- context [call_doc s ?xs] => specialize (IHs Hr xs); destruct (call_doc s xs) as [l3 r3]; exact IHs
       end.
   - specialize (IHf Hr args). destruct (call_doc f args) as [l r]. simpl in *.
-    destruct r; try discriminate. exact IHf.
+    destruct r; try discriminate; [exact IHf|].
+    unfold catcher_result. destruct (N.ltb c 5000); discriminate.
   - apply IHf; exact Hr.
   - apply IHf; exact Hr.
 Qed.
@@ -633,9 +634,16 @@ Qed.
 
 Theorem exception_catch_exact :
   forall f c args, snd (call_doc (FExcCatch f c) args) =
-    match snd (call_doc f args) with RThrow => RInt (Z.of_N c) | r => r end.
+    match snd (call_doc f args) with RThrow => catcher_result c | r => r end.
 Proof.
   intros f c args. cbn [call_doc]. destruct (call_doc f args) as [l r]. destruct r; reflexivity.
+Qed.
+
+Theorem exception_catch_rethrow :
+  forall f c args, (5000 <= c)%N -> snd (call_doc f args) = RThrow -> snd (call_doc (FExcCatch f c) args) = RThrow.
+Proof.
+  intros f c args Hc H. rewrite exception_catch_exact, H. unfold catcher_result.
+  destruct (N.ltb_spec c 5000) as [Hlt|_]; [|reflexivity]. exfalso. apply (N.lt_irrefl c). eapply N.lt_le_trans; eassumption.
 Qed.
 
 Theorem bind_return_returns_bound :
